@@ -343,8 +343,13 @@ impl<'tcx> Cx<'tcx> {
                 } else {
                     fields.push(("indirect", b(true)));
                     // a table of f64 (e.g. the Pade coefficients): export the elements
-                    if let (ty::Array(et, _), ConstValue::Indirect { alloc_id, offset }) = (ty.kind(), val) {
-                        if matches!(et.kind(), ty::Float(ty::FloatTy::F64)) {
+                    let all_f64 = match ty.kind() {
+                        ty::Array(et, _) => matches!(et.kind(), ty::Float(ty::FloatTy::F64)),
+                        ty::Tuple(ts) => !ts.is_empty() && ts.iter().all(|t| matches!(t.kind(), ty::Float(ty::FloatTy::F64))),
+                        _ => false,
+                    };
+                    if let ConstValue::Indirect { alloc_id, offset } = val {
+                        if all_f64 {
                             if let Some(rustc_middle::mir::interpret::GlobalAlloc::Memory(mem)) =
                                 tcx.try_get_global_alloc(alloc_id)
                             {
